@@ -357,3 +357,20 @@ struct MapperModel {
         }
     }
 };
+
+// what a delivered frame means for the mapper slot, judged from its bytes (ToS, opcode, sequence number)
+enum Sem { SEM_NONE, SEM_DISCOVER, SEM_RESET, SEM_COMMAND };
+static inline Sem frame_sem(const Bytes &f) {
+    if (f.size() < HDR) return SEM_NONE;
+    uint8_t tos = f[15], op = f[17];
+    if (tos > 1) return SEM_NONE;
+    if (op == OP_DISCOVER) return SEM_DISCOVER;
+    if (op == OP_RESET) return SEM_RESET;
+    if (tos == 0 && (op == OP_EMIT || op == OP_QUERY)) return SEM_COMMAND;
+    if (op == OP_QLT && get16(f.data() + 30) != 0) return SEM_COMMAND;
+    return SEM_NONE;
+}
+static inline void shadow_update_sem(Shadow &sh, Sem s, const Built &b) {
+    if (s == SEM_RESET) sh.reset();
+    else if ((s == SEM_DISCOVER || s == SEM_COMMAND) && sh.active < 0) { sh.active = b.station; sh.bridged = b.bridged; }
+}
